@@ -174,20 +174,27 @@ def r15_1(ctx):
         ctx.ob('R15.1', 'yara_yylex:integer-range->ERROR_INTEGER_OVERFLOW', ovf >= 3,
                '%s:%s' % (lx.file, lx.line),
                '%d integer-literal range tests raise ERROR_INTEGER_OVERFLOW' % ovf)
-    # narrowing stores of regexp code offsets
+    # narrowing stores of regexp code offsets (in the emitter or in the static
+    # helpers it calls: the computation may live in a helper as long as the
+    # helper's error is consumed by the caller)
     for fname in ('_yr_re_emit',):
-        f = prog.fn(fname, 'libyara/re.c')
-        if f is None:
+        root = prog.fn(fname, 'libyara/re.c')
+        if root is None:
             continue
         etl = prog.macro_value('ERROR_REGULAR_EXPRESSION_TOO_LARGE')
-        casts = [n for n in f.all_nodes() if n['k'] == 'cast' and n.get('t') in ('int16_t', 'int32_t')
-                 and f.kid(n, 0) is not None and cu.strip_casts(f, f.kid(n, 0))['k'] == 'bin'
-                 and cu.strip_casts(f, f.kid(n, 0))['op'] == '-']
-        ctx.require(len(casts) >= 4 or ctx.fixture, 'narrowing offset casts not found in ' + fname)
+        fam = cu.family(prog, root)
+        found = []
+        for f in fam:
+            for n in f.all_nodes():
+                if n['k'] == 'cast' and n.get('t') in ('int16_t', 'int32_t') \
+                        and f.kid(n, 0) is not None and cu.strip_casts(f, f.kid(n, 0))['k'] == 'bin' \
+                        and cu.strip_casts(f, f.kid(n, 0))['op'] == '-':
+                    found.append((f, n))
+        ctx.require(len(found) >= 1 or ctx.fixture, 'narrowing offset casts not found in ' + fname)
         occ = {}
-        for cst in casts:
+        helpers = set()
+        for f, cst in found:
             expr = f.show(cu.strip_casts(f, f.kid(cst, 0)))
-            nb = f.block_of(cst)
             # backward reasoning by forward exploration from function entry is
             # expensive here; use the enclosing statement list: a preceding
             # sibling `if (<expr> REL INTxx_MIN/MAX) return TOO_LARGE`
@@ -205,15 +212,138 @@ def r15_1(ctx):
                                     _err_in(f, f.kid(st, 1), etl):
                                 ok = True
                 child = a
-            i = occ.setdefault(expr, [0])
+            if f is not root:
+                helpers.add(f.name)
+            i = occ.setdefault((f.name, expr), [0])
             i[0] += 1
-            ctx.ob('R15.1', '%s:(%s)(%s)%s:range-checked' % (fname, cst['t'], expr[:40],
+            ctx.ob('R15.1', '%s:(%s)(%s)%s:range-checked' % (f.name, cst['t'], expr[:40],
                                                           '#%d' % i[0] if i[0] > 1 else ''),
                    ok, f.loc(cst),
                    'the %s store of %s is preceded by its %s range test -> '
                    'ERROR_REGULAR_EXPRESSION_TOO_LARGE' % (cst['t'], expr, lim) if ok else
                    'offset %s is narrowed to %s without a preceding %s range test: an oversized '
                    'regexp silently gets a wrapped jump offset' % (expr, cst['t'], lim))
+        # a helper's ERROR_REGULAR_EXPRESSION_TOO_LARGE must reach the caller
+        for f in fam:
+            for n in f.all_nodes():
+                if n['k'] == 'call' and n.get('callee') in helpers:
+                    par = f.parent(n)
+                    while par is not None and par['k'] in ('paren', 'cast') and par.get('t') != 'void':
+                        par = f.parent(par)
+                    dropped = par is None or par['k'] in ('compound', 'case', 'default', 'label') or \
+                        (par['k'] == 'cast' and par.get('t') == 'void') or \
+                        (par['k'] in ('if', 'while', 'for', 'do') and f.kid(par, 0) is not n
+                         and n not in list(f.walk(f.kid(par, 0)) if f.kid(par, 0) is not None else []))
+                    ctx.ob('R15.1', '%s:%s@%s:error-consumed' % (f.name, n['callee'], n.get('line')),
+                           not dropped, f.loc(n),
+                           'the range-checking helper\'s result is consumed' if not dropped else
+                           'the result of %s (which carries ERROR_REGULAR_EXPRESSION_TOO_LARGE) is '
+                           'discarded' % n['callee'])
+
+
+def _search_loop(fn, arr_name, val_name):
+    """a loop of fn that compares arr_name[..] with val_name for equality; returns the
+    list of (comparison node, enclosing loop)"""
+    out = []
+    for n in fn.all_nodes():
+        if n['k'] == 'bin' and n['op'] == '==':
+            a, b = cu.strip_casts(fn, fn.kid(n, 0)), cu.strip_casts(fn, fn.kid(n, 1))
+            for x, y in ((a, b), (b, a)):
+                if x is not None and x['k'] == 'sub' and y is not None and y['k'] == 'ref' and \
+                        y['name'] == val_name:
+                    base = cu.strip_casts(fn, fn.kid(x, 0))
+                    if base is not None and base['k'] == 'ref' and base['name'] == arr_name:
+                        loops = [l for l in fn.ancestors(n) if l['k'] in ('for', 'while', 'do')]
+                        if loops:
+                            out.append((n, loops[0]))
+    return out
+
+
+def _recorded_only_when_absent(prog, fs):
+    """the store that records a value in a local array happens only on the branch on
+    which a search of that array for that value found nothing.  The search is a loop
+    with an equality test in the function itself (setting a flag) or in a static helper
+    that receives the array and the value.  Returns (ok, where, why-not)."""
+    where = '%s:%s' % (fs.file, fs.line)
+    arrays = set(l['name'] for l in fs.locals if l.get('extent'))
+    stores = []
+    for n in fs.all_nodes():
+        if n['k'] == 'bin' and n['op'] == '=':
+            l = cu.strip_casts(fs, fs.kid(n, 0))
+            r = cu.strip_casts(fs, fs.kid(n, 1))
+            if l is not None and l['k'] == 'sub' and r is not None and r['k'] == 'ref':
+                base = cu.strip_casts(fs, fs.kid(l, 0))
+                if base is not None and base['k'] == 'ref' and base['name'] in arrays:
+                    stores.append((n, base['name'], r['name']))
+    if not stores:
+        return False, where, 'no recording store found'
+    for st, arr, val in stores:
+        verdict = None
+        child = st
+        for a in fs.ancestors(st):
+            if a['k'] == 'if':
+                ks = fs.kids(a)
+                in_then = any(x is st for x in fs.walk(ks[1]))
+                c, pol = paths.normalise_cond(fs, ks[0], in_then)
+                while c is not None and c['k'] == 'paren':
+                    c = cu.strip_casts(fs, fs.kid(c, 0))
+                c = cu.strip_casts(fs, c) if c is not None else None
+                # `x != 0` / `x == 0` / `x == false` are spellings of `x` / `!x`
+                if c is not None and c['k'] == 'bin' and c['op'] in ('==', '!='):
+                    l0, r0 = cu.strip_casts(fs, fs.kid(c, 0)), cu.strip_casts(fs, fs.kid(c, 1))
+                    for x, y in ((l0, r0), (r0, l0)):
+                        if y is not None and cu.const_of(y) == 0 and x is not None and \
+                                x['k'] in ('ref', 'call'):
+                            if c['op'] == '==':
+                                pol = not pol
+                            c = x
+                            break
+                found_means = None          # truth value of c that means "found"
+                if c is not None and c['k'] == 'ref':
+                    # a flag: set to non-zero under the equality test of a search loop
+                    for cmpn, loop in _search_loop(fs, arr, val):
+                        for x in fs.walk(loop):
+                            if x['k'] == 'bin' and x['op'] == '=' and \
+                                    fs.show(fs.kid(x, 0)) == c['name'] and \
+                                    (cu.const_of(cu.strip_casts(fs, fs.kid(x, 1))) or 0) != 0 and \
+                                    any(i['k'] == 'if' and any(y is cmpn for y in fs.walk(fs.kid(i, 0)))
+                                        for i in fs.ancestors(x)):
+                                found_means = True
+                elif c is not None and c['k'] == 'call' and c.get('callee'):
+                    h = fs.tu.functions.get(c['callee'])
+                    args = fs.call_args(c)
+                    if h is not None and getattr(h, 'static', False):
+                        pa = pv = None
+                        for i, x in enumerate(args):
+                            x = cu.strip_casts(fs, x)
+                            if x is not None and x['k'] == 'ref' and i < len(h.params):
+                                if x['name'] == arr:
+                                    pa = h.params[i]['name']
+                                if x['name'] == val:
+                                    pv = h.params[i]['name']
+                        if pa and pv:
+                            for cmpn, loop in _search_loop(h, pa, pv):
+                                # returns non-zero under the test, zero after the loop
+                                hit = any(x['k'] == 'ret' and x.get('c') and
+                                          (cu.const_of(cu.strip_casts(h, h.kid(x, 0))) or 0) != 0 and
+                                          any(i['k'] == 'if' and any(y is cmpn for y in h.walk(h.kid(i, 0)))
+                                              for i in h.ancestors(x))
+                                          for x in h.walk(loop))
+                                miss = any(x['k'] == 'ret' and x.get('c') and
+                                           cu.const_of(cu.strip_casts(h, h.kid(x, 0))) == 0 and
+                                           not any(a2 is loop for a2 in h.ancestors(x))
+                                           for x in h.all_nodes())
+                                if hit and miss:
+                                    found_means = True
+                if found_means is not None:
+                    verdict = (pol != found_means)
+                    break
+            child = a
+        if verdict is None:
+            return False, fs.loc(st), 'the store of %s into %s[] does not depend on a search' % (val, arr)
+        if not verdict:
+            return False, fs.loc(st), 'the store of %s into %s[] is on the branch where it was found' % (val, arr)
+    return True, fs.loc(stores[0][0]), ''
 
 
 # ---------------------------------------------------------------- R15.2
@@ -379,13 +509,11 @@ def r15_2(ctx):
                'no action resets vars_count: the first-variable store is no longer bounded')
     fs = prog.fn('_yr_re_fiber_sync', 'libyara/re.c') if not ctx.fixture else None
     if fs is not None:
-        search = any(n['k'] == 'bin' and n['op'] == '==' and 'splits_executed[' in fs.show(n)
-                     and 'split_id' in fs.show(n) for n in fs.all_nodes())
-        ctx.ob('R15.2', '_yr_re_fiber_sync:splits_executed:distinct-entries', search,
-               '%s:%s' % (fs.file, fs.line),
-               'a split id is recorded only after a search did not find it' if search else
-               'split ids are recorded without the duplicate search: the list is no longer '
-               'bounded by the number of distinct ids')
+        ok, where, why = _recorded_only_when_absent(prog, fs)
+        ctx.ob('R15.2', '_yr_re_fiber_sync:splits_executed:distinct-entries', ok, where,
+               'a split id is recorded only after a search did not find it' if ok else
+               'split ids are recorded without the duplicate search (%s): the list is no longer '
+               'bounded by the number of distinct ids' % why)
     # frozen cross-function bounds: check their compile-time side
     g = yyparse(ctx) if not ctx.fixture else None
     if g is not None:
